@@ -589,10 +589,10 @@ class Node:
             log.debug(f"payload: {payload}")
             payload = parse_payload(command, payload)
             log.debug(f"payload (parsed): {payload}")
-            self._msg_queue.append((peer_no, command, payload))
             if command in self._registered_commands_to_handle:
-                self._msg_queue.pop()
                 self.handle_command(peer_no, command, payload)
+            else:
+                self._msg_queue.append((peer_no, command, payload))
 
         self._peer_sockets[peer_no].close()
         log.debug(f"peer {peer_no} socket closed. exit recv_loop")
